@@ -111,7 +111,7 @@ def gen_cases(ctx, n, prop):
             if "record_sleep_us" not in c and r.random() < 0.7:
                 c["script"] = [["sleep_ms", 2], ["progress"], ["sleep_ms", 400], ["progress"], ["wait_until_done"]]
         if prop == "C13":
-            kind = r.choice(["logp_unrec", "logp_unrec", "expand", "math", "all_init_bad", "rec_only", "rec_init", "two", "storage"])
+            kind = r.choice(["logp_unrec", "logp_unrec", "expand", "math", "all_init_bad", "rec_only", "rec_init", "two", "storage", "late_fault", "late_fault"])
             ch = r.randrange(nch)
             total_evals = 40
             if kind == "logp_unrec":
@@ -124,6 +124,13 @@ def gen_cases(ctx, n, prop):
                 c["math_fails"] = [ch]
             elif kind == "all_init_bad":
                 c["all_init_bad"] = [ch]
+            elif kind == "late_fault":
+                # a slow chain fails inside the draw during which abort() is called: the error is
+                # sent after the abort has begun
+                c["sleep_us"] = [[ch, r.choice([3000, 6000])]]
+                c["logp_faults"] = [[ch, r.randint(6, 40), "unrec"]]
+                c["num_tune"], c["num_draws"] = 6, 8
+                c["preset"] = "diag_nuts"
             elif kind == "storage":
                 # the storage backend fails in record_sample of one chain at one draw
                 c["record_fail"] = [ch, r.randint(0, max(0, c["num_tune"] + c["num_draws"] - 1))]
@@ -140,6 +147,8 @@ def gen_cases(ctx, n, prop):
             # between initialisation attempts for a retry to be able to succeed
             c["random_init"] = True
             c["script"] = [list(x) for x in r.choice([SCRIPTS[0], SCRIPTS[1], SCRIPTS[5], [["sleep_ms", 30], ["abort"]]])]
+            if kind == "late_fault":
+                c["script"] = [["sleep_ms", r.randint(10, 220)], ["abort"]]
         if prop == "C12":
             # place the pause at a chosen point of a chosen chain's loop
             pt = r.choice(["try_recv", "before_draw", "drawn", "recorded"])
